@@ -36,7 +36,8 @@ func vfGenSrvCfg(t *rapid.T) vfSrvCfg {
 func vfGenC02(t *rapid.T) vfCaseC02 {
 	c := vfCaseC02{Srv: vfGenSrvCfg(t)}
 	c.IDBase = vfGenU32(t, "idbase")
-	c.IDStep = uint32(rapid.SampledFrom([]int{1, 3, 7919, 0x9e3779b1}).Draw(t, "idstep")) | 1
+	// step 0 = every request carries the same id (legal on the wire; then only arrival order tells the responses apart)
+	c.IDStep = uint32(rapid.SampledFrom([]int{1, 3, 7919, 0x9e3779b1, 1, 0}).Draw(t, "idstep"))
 	np := rapid.IntRange(1, 3).Draw(t, "phases")
 	for i := 0; i < np; i++ {
 		var ph vfPhase
@@ -77,7 +78,7 @@ type vfProgSession struct {
 }
 
 func vfStartProg(ctx *vfCtx, cfg vfSrvCfg, idBase, idStep uint32) *vfProgSession {
-	ps := &vfProgSession{base: idBase, step: idStep | 1}
+	ps := &vfProgSession{base: idBase, step: idStep}
 	var h *vfH
 	if cfg.Kind == "os" {
 		ps.root = vfTempDir("vfsrv")
